@@ -270,8 +270,8 @@ func c05LexWidth(c *core.Ctx, pkg *packages.Package) {
 	// backup() must be pos -= width, next() must set width from the decode (the typestate's meaning)
 	if bk := c.Need("C05.lexwidth", "tick/ast", "lexer", "backup"); bk != nil {
 		good := false
-		if len(bk.Decl.Body.List) == 1 {
-			if as, ok := bk.Decl.Body.List[0].(*ast.AssignStmt); ok && as.Tok == token.SUB_ASSIGN && an.FieldSel(info, as.Lhs[0], "lexer", "pos") && an.FieldSel(info, as.Rhs[0], "lexer", "width") {
+		if body := an.Effective(bk.Decl.Body.List); len(body) == 1 {
+			if as, ok := body[0].(*ast.AssignStmt); ok && as.Tok == token.SUB_ASSIGN && an.FieldSel(info, as.Lhs[0], "lexer", "pos") && an.FieldSel(info, as.Rhs[0], "lexer", "width") {
 				good = true
 			}
 		}
